@@ -361,11 +361,15 @@ package cl
 // C01 / C04: apply calls the function with the leading arguments in order
 // followed by the elements of the final list, in the caller's scope.
 //@ func cl.(*Apply).Call
-//@   property C01 C04
+//@   property C01 C04 C06
 //@   on-call Call#1 spread-length: len($arg1) == len(args) - 2 + len(larg)
 //@   on-call Call#1 leading-args: forall j :: (0 <= j && j < len(args) - 2) ==> $arg1[j] == args[j + 1]
 //@   on-call Call#1 list-elements: forall j :: (0 <= j && j < len(larg)) ==> $arg1[len(args) - 2 + j] == larg[j]
 //@   on-call Call#1 scope: $arg0 == s
+// C06: the argument vector handed to the applied function is this call's own:
+// a callee that keeps its arguments (values, vector) never ends up sharing
+// storage with the list that was spread.
+//@   on-call Call#1 own-argument-vector: len($arg1) == 0 || fresh($arg1)
 
 // ---------------------------------------------------------------------------
 // C02: read-from-string reads the window start..end of the text exactly as it
